@@ -248,7 +248,7 @@ def run(prog, rep):
                         sdbg += 1
             rep.check(sdbg == 1, "E8.d", "Debug for Value :: string escaping", f.loc(), "a string is rendered with the standard Debug escaping of str (quotes, backslash, control characters)",
                       "Debug for Value no longer renders strings through str's Debug (%d such calls): distinct strings can print alike" % sdbg)
-        rep.check(not bad and good >= 4, "E8.d", "%s for Value :: nested formatting" % trait.rsplit("::", 1)[-1], f.loc(), "%d nested values formatted with %s" % (good, inner_ok),
+        rep.check(not bad and good >= 2, "E8.d", "%s for Value :: nested formatting" % trait.rsplit("::", 1)[-1], f.loc(), "%d nested values formatted with %s" % (good, inner_ok),
                   "nested values are formatted with the other trait at %s (a quoted string would lose its quotes / gain them)" % bad)
     # ---- pretty print
     rep.rule("C14.P", "pretty_print: for every node (index order) `node i` + its attributes, then for every edge of its sorted edge vector `edge i -> sink` + the edge's attributes; Attributes' Display prints `name: {value:?}` for every name in sorted order")
